@@ -191,6 +191,32 @@ def f_dump_id():
     return n == 1, f"dump filter ['batteryStatus'] wrote {n} lines for one batteryStatus message"
 
 
+# ---------------------------------------------------------------- C16
+@finding("C16/rejected-fast-message-leaves-record/127513", "C16")
+def f_stale_record():
+    # a complete fast-packet message whose per-PGN decoder raises (127513 with an out-of-range byte)
+    # must not change what the decoder returns for the next message on that stream
+    def feed(d, frames):
+        out = None
+        for fr in frames:
+            try:
+                out = d.decode_basic_string(_basic(127513, fr))
+            except Exception:
+                out = "raised"
+        return out
+    bad = bytes([0, 0, 0, 0, 0, 0, 0, 0, 0, 0])       # peukert byte 0 -> below the database minimum
+    good = bytes([1, 2, 2, 0x10, 0x27, 100, 50, 120, 90, 80])
+    def frames(seq, p):
+        return [bytes([seq << 5, len(p)]) + p[:6], bytes([(seq << 5) | 1]) + p[6:]]
+    d1 = _dec()
+    r_bad = feed(d1, frames(2, bad))
+    r1 = feed(d1, frames(2, good))
+    r2 = feed(_dec(), frames(2, good))
+    same = (r1 is None) == (r2 is None) and (r1 is None or r1 == "raised" or r2 == "raised" or
+                                               [f.raw_value for f in r1.fields] == [f.raw_value for f in r2.fields])
+    return same, f"after a rejected message ({r_bad!r}) the same stream returns {('a message' if r1 not in (None, 'raised') else r1)!r}, a fresh decoder returns {('a message' if r2 not in (None, 'raised') else r2)!r}"
+
+
 # ---------------------------------------------------------------- clients
 class _FakeWriter:
     def __init__(self, script=None):
